@@ -18,20 +18,49 @@ use std::time::Instant;
 // Tape decoder
 // ---------------------------------------------------------------------------------------------
 
+/// Number of auxiliary words at the start of every tape (layout 2). They are read by index with
+/// `aux_u` / `aux_i`, not by the sequential cursor, so that a generator can be given an additional
+/// choice without shifting the meaning of every following word (which would silently turn saved
+/// tapes into different cases). A zero auxiliary word selects the default behaviour.
+pub const AUX: usize = 8;
+
 /// Decoder over a tape of raw 32-bit choices. Exhausted tapes yield 0 (the low end of each range).
 pub struct Dec<'a> {
     tape: &'a [u32],
     pos: usize,
     hash: u64,
+    /// Set by `gen::far_offset` when the case was placed far away from the origin (reported as the
+    /// counter `far_placed_cases`).
+    pub far: bool,
 }
 
 impl<'a> Dec<'a> {
     pub fn new(tape: &'a [u32]) -> Self {
         Self {
             tape,
-            pos: 0,
+            pos: AUX,
             hash: 0xcbf29ce484222325,
+            far: false,
         }
+    }
+
+    /// Auxiliary choice `k` (`k < AUX`), uniform in `lo..=hi`, `lo` for a zero word.
+    pub fn aux_u(&mut self, k: usize, lo: u32, hi: u32) -> u32 {
+        debug_assert!(k < AUX && lo <= hi);
+        let span = (hi - lo) as u64 + 1;
+        let w = self.tape.get(k).copied().unwrap_or(0) as u64;
+        let v = lo + ((w * span) >> 32) as u32;
+        self.mix(v as u64 ^ 0x3333 ^ ((k as u64) << 40));
+        v
+    }
+
+    /// Auxiliary choice `k`, uniform in `lo..=hi`, the value nearest to zero for a zero word.
+    pub fn aux_i(&mut self, k: usize, lo: i32, hi: i32) -> i32 {
+        debug_assert!(k < AUX && lo <= hi);
+        let w = self.tape.get(k).copied().unwrap_or(0);
+        let v = Self::map_i(w, lo, hi);
+        self.mix(v as u64 ^ 0xcccc ^ ((k as u64) << 40));
+        v
     }
 
     fn word(&mut self) -> u32 {
@@ -46,7 +75,7 @@ impl<'a> Dec<'a> {
         self.hash ^= self.hash >> 29;
     }
 
-    /// Words consumed so far.
+    /// Words consumed so far (including the auxiliary words at the start).
     pub fn used(&self) -> usize {
         self.pos
     }
@@ -69,9 +98,15 @@ impl<'a> Dec<'a> {
     /// Uniform in `lo..=hi`; value nearest to zero (or `lo` if positive) for a zero word.
     pub fn i(&mut self, lo: i32, hi: i32) -> i32 {
         debug_assert!(lo <= hi);
+        let w = self.word();
+        let v = Self::map_i(w, lo, hi);
+        self.mix(v as u64 ^ 0xaaaa);
+        v
+    }
+
+    fn map_i(w: u32, lo: i32, hi: i32) -> i32 {
         let span = (hi as i64 - lo as i64) as u64 + 1;
-        let w = self.word() as u64;
-        let k = ((w * span) >> 32) as i64;
+        let k = ((w as u64 * span) >> 32) as i64;
         // Order the range so that k = 0 is the value closest to zero: 0, 1, -1, 2, -2, ...
         let v = if lo <= 0 && hi >= 0 {
             let (nl, nh) = (-(lo as i64), hi as i64);
@@ -92,7 +127,6 @@ impl<'a> Dec<'a> {
         } else {
             hi as i64 - k
         };
-        self.mix(v as u64 ^ 0xaaaa);
         v as i32
     }
 
@@ -553,6 +587,9 @@ pub fn run_case(f: TapeFn, tape: &[u32], want_desc: bool, tier: Tier) -> CaseRep
         Ok(r) => r,
         Err(p) => Err(panic_fail(p)),
     };
+    if dec.far {
+        cx.counters.push(("far_placed_cases", 1));
+    }
     CaseReport {
         fp: dec.fingerprint(),
         class: cx.class,
@@ -627,7 +664,7 @@ pub fn drive_tape(
                 config.verbose = 0;
                 config.source_file = None;
                 let mut runner = TestRunner::new(config);
-                let strat = proptest::collection::vec(proptest::arbitrary::any::<u32>(), len);
+                let strat = proptest::collection::vec(proptest::arbitrary::any::<u32>(), len + AUX);
                 let res = runner.run(&strat, |tape| {
                     let _g = SlotGuard::enter(shard);
                     let rep = run_case(f, &tape, false, tier);
@@ -910,6 +947,7 @@ pub fn write_replay(run: &Run, prop: &Prop, v: &Violation) -> String {
         "sub": v.sub,
         "mode": if v.tape.is_some() { "tape" } else { "enumerate" },
         "tape": v.tape,
+        "layout": 2,
         "build": run.build,
         "tier": run.tier.name(),
         "signature": v.fail.sig,
@@ -936,12 +974,18 @@ pub fn replay_value(run: &Run, props: &[Prop], v: &Value) -> Result<(bool, Strin
         .ok_or_else(|| format!("unknown sub-check {}", subname))?;
     match &sub.kind {
         Kind::Tape { f, .. } => {
-            let tape: Vec<u32> = v["tape"]
+            let mut tape: Vec<u32> = v["tape"]
                 .as_array()
                 .ok_or("replay file: no tape")?
                 .iter()
                 .map(|x| x.as_u64().unwrap_or(0) as u32)
                 .collect();
+            if v["layout"].as_u64().unwrap_or(1) < 2 {
+                // layout 1 had no auxiliary words: all default
+                let mut t = vec![0u32; AUX];
+                t.extend(tape);
+                tape = t;
+            }
             let rep = run_case(*f, &tape, true, run.tier);
             let case = rep.desc.clone().unwrap_or_default();
             match rep.result {
